@@ -12,9 +12,10 @@ Fixpoint strip_spec (t: fty) : fty :=
   | FFinal (Some t') => strip_spec t'
   | _ => t end.
 
-Definition core_nullable (c: fcore) : bool := c_any_none c || c_tv_any c || c_optional c.
+Definition core_nullable (c: fcore) : bool := c_any_none c || c_tv_any c || c_optional c || c_union_none c.
 
-(* nullable = the stripped core is Any/None, an unconstrained TypeVar or an Optional, or the default is None *)
+(* nullable = the stripped core is Any/None, an unconstrained TypeVar, an Optional or (since /repo 906a805) any
+   Union with a None member, or the default is None *)
 Theorem K20_spec_thm : forall t d,
   is_field_nullable t d =
   (match strip_spec t with FCore c => core_nullable c | _ => false end) || d.
